@@ -13,7 +13,7 @@ Record probe1 := P1 {
   p_closed : bool;
   p_maps : list (ty * list (string * value));
   p_events : list revent;
-  p_calls : list (nat * nat) }.
+  p_calls : list (key * nat) }.
 
 Record mask := Mask {
   m_add : bool;     (* outcomes of add_resource / add_resource_factory / add_teardown_callback *)
@@ -60,7 +60,7 @@ Definition revent_eqb (a b : revent) : bool :=
   list_eqb Nat.eqb (ev_types a) (ev_types b) && String.eqb (ev_name a) (ev_name b)
   && opt_eqb Nat.eqb (ev_desc a) (ev_desc b) && Bool.eqb (ev_is_factory a) (ev_is_factory b).
 
-Definition nn_eqb (a b : nat * nat) : bool := Nat.eqb (fst a) (fst b) && Nat.eqb (snd a) (snd b).
+Definition nn_eqb (a b : key * nat) : bool := key_eqb (fst a) (fst b) && Nat.eqb (snd a) (snd b).
 
 Inductive opclass := KAdd | KGet | KLife | KNew.
 Definition class_of (o : op) : opclass :=
